@@ -7,7 +7,7 @@ from typing import List, Optional, Set
 from ..cfg import ENTRY, EXIT, RAISE, reaching_defs
 from ..common import calls_named, dotted, kw, loc, norm
 from ..model import AnalysisError, own_nodes
-from .util import anchor_func, assigned_name, build_cfg, facts, switch_assumptions
+from .util import anchor_func, assigned_name, build_cfg, facts, is_zero_expr, switch_assumptions
 from . import c13
 
 TENSOR = "mygrad.tensor_base.Tensor"
@@ -367,6 +367,163 @@ def r05_8(run):
            f"and every backward() after an in-place write through such a view is wrong or raises")
 
 
+_SHAPE_ATTRS = {"ndim", "shape", "size", "dtype", "base", "flags", "strides", "itemsize", "nbytes"}
+
+
+def _value_names(e: ast.AST) -> Set[str]:
+    """names whose array *values* flow into `e` (uses of x.shape / x.ndim / x.dtype / len(x) carry no values)"""
+    out: Set[str] = set()
+    stack = [e]
+    while stack:
+        n = stack.pop()
+        if isinstance(n, ast.Attribute) and n.attr in _SHAPE_ATTRS:
+            continue
+        if isinstance(n, ast.Call) and isinstance(n.func, ast.Name) and n.func.id in ("len", "isinstance", "type"):
+            continue
+        if isinstance(n, ast.Name):
+            out.add(n.id)
+        stack.extend(ast.iter_child_nodes(n))
+    return out
+
+
+def _grad_derived(fn: ast.AST, seed: str) -> Set[str]:
+    """names whose value is computed from `seed` (flow-insensitive closure over plain/augmented assignments and for-targets)"""
+    der = {seed}
+    changed = True
+    while changed:
+        changed = False
+        for n in own_nodes(fn):
+            tgts, val = [], None
+            if isinstance(n, ast.Assign):
+                tgts, val = n.targets, n.value
+            elif isinstance(n, ast.AugAssign):
+                tgts, val = [n.target], n.value
+            elif isinstance(n, ast.AnnAssign) and n.value is not None:
+                tgts, val = [n.target], n.value
+            if val is None:
+                continue
+            if _value_names(val) & der:
+                for t in tgts:
+                    for x in ast.walk(t):
+                        if isinstance(x, ast.Name) and isinstance(x.ctx, ast.Store) and x.id not in der:
+                            der.add(x.id)
+                            changed = True
+    return der
+
+
+def _scalings(fn: ast.AST, der: Set[str]):
+    """multiplications one of whose operands carries the gradient: (node, text)"""
+    def carries(e):
+        return not isinstance(e, (ast.Tuple, ast.List)) and bool(_value_names(e) & der)
+    for n in own_nodes(fn):
+        if isinstance(n, ast.BinOp) and isinstance(n.op, (ast.Mult, ast.MatMult)) and (carries(n.left) or carries(n.right)):
+            yield n, norm(n)
+        elif isinstance(n, ast.AugAssign) and isinstance(n.op, ast.Mult) and carries(n.target):
+            yield n, norm(n)
+        elif isinstance(n, ast.Call) and (dotted(n.func) or norm(n.func)).split(".")[-1] in ("multiply", "prod") and any(carries(a) for a in n.args):
+            yield n, norm(n)
+
+
+def _selections(fn: ast.AST, der: Set[str]):
+    """statements that route by assignment/selection: `<g>[...] = 0`, where(mask, <zero>, g) / where(mask, g, <zero>), copyto/putmask(g, 0, ...)"""
+    for n in own_nodes(fn):
+        if isinstance(n, ast.Assign) and isinstance(n.targets[0], ast.Subscript) and is_zero_expr(n.value) \
+                and isinstance(n.targets[0].value, ast.Name) and n.targets[0].value.id in der:
+            yield n
+        elif isinstance(n, ast.Call):
+            leaf = (dotted(n.func) or norm(n.func)).split(".")[-1]
+            if leaf == "where" and len(n.args) == 3 and any(is_zero_expr(a) for a in n.args[1:]) \
+                    and any(isinstance(a, ast.Name) and a.id in der for a in n.args[1:]):
+                yield n
+            elif leaf in ("copyto", "putmask", "place") and len(n.args) >= 2 and isinstance(n.args[0], ast.Name) and n.args[0].id in der \
+                    and any(is_zero_expr(a) for a in n.args[1:]):
+                yield n
+
+
+def r05_9(run):
+    """Routing, not scaling.  The ops that *route* gradient around an in-place write -- SetItem (the overwritten region of the target, the
+    redundantly set entries of the value), UnView (the region written through a view), ApplyMask (the masked-in entries of the old contents)
+    and the where-mask of a ufunc in Operation.backward -- must drop the excluded entries by assignment or selection.  Scaling by a 0/1 mask
+    is not the same function under IEEE arithmetic: 0 * nan = 0 * inf = nan, so a non-finite gradient that arrives at an overwritten /
+    masked-out entry (the usual `z[bad] = 0; sqrt(z)` sanitising pattern) leaks into the old contents."""
+    proj = run.project
+    opbase = proj.cls("mygrad.operation_base.Operation")
+    routing = [c for c in proj.operation_classes()
+               if c.module.name.endswith("_utils.duplicating_graph") or c.qualname.endswith("_tensor_core_ops.indexing.SetItem")]
+    if not any(c.qualname.endswith("SetItem") for c in routing) or len(routing) < 3:
+        raise AnalysisError("routing ops (SetItem and the glue ops of duplicating_graph) not found")
+    nsel = 0
+    for c in routing:
+        fi = c.methods.get("backward_var")
+        if fi is None:
+            continue
+        a = fi.node.args.args
+        gname = a[1].arg if len(a) > 1 else "grad"
+        der = _grad_derived(fi.node, gname)
+        sel = list(_selections(fi.node, der))
+        nsel += len(sel)
+        for n in sel:
+            run.ob("R05.9", loc(fi, n), fi.short, f"excluded entries dropped by assignment/selection `{norm(n)[:50]}`", True, "no arithmetic on the dropped entries")
+        for n, txt in _scalings(fi.node, der):
+            run.ob("R05.9", loc(fi, n), fi.short, f"gradient scaled `{txt[:60]}` in a routing op", False,
+                   "a routing op multiplies the gradient: entries meant to pass nothing are computed as 0 * g, which is nan for a non-finite g "
+                   "(IEEE) -- the old contents of an overwritten / masked entry receive nan instead of nothing")
+    # the where-mask of a ufunc, applied centrally
+    fi = anchor_func(run, "mygrad.operation_base.Operation.backward")
+    cfgw = build_cfg(run, fi, {"self.where is not True": True})
+    cfgn = build_cfg(run, fi, {"self.where is not True": False})
+    app = [n for n in own_nodes(fi.node) if isinstance(n, (ast.Assign, ast.AugAssign)) and "self.where" in norm(n)
+           and cfgw.node_for(n) is not None and cfgw.reachable(cfgw.node_for(n))
+           and (cfgn.node_for(n) is None or not cfgn.reachable(cfgn.node_for(n)))]
+    if not app:
+        raise AnalysisError(f"{fi.short}: the statement applying self.where to a contribution was not found")
+    for n in app:
+        v = n.value
+        mult = isinstance(n, ast.AugAssign) and isinstance(n.op, ast.Mult) or any(
+            (isinstance(x, ast.BinOp) and isinstance(x.op, ast.Mult) and "self.where" in (norm(x.left), norm(x.right)))
+            or (isinstance(x, ast.Call) and (dotted(x.func) or "").split(".")[-1] == "multiply" and any(norm(y) == "self.where" for y in x.args))
+            for x in ast.walk(v))
+        sel = any(isinstance(x, ast.Call) and (dotted(x.func) or norm(x.func)).split(".")[-1] == "where" and len(x.args) == 3
+                  and norm(x.args[0]) == "self.where" and is_zero_expr(x.args[2]) for x in ast.walk(v))
+        nsel += 1 if sel else 0
+        run.ob("R05.9", loc(fi, n), fi.short, "where-mask of a ufunc selects the contribution", sel and not mult,
+               "np.where(self.where, g, <zero>)" if sel and not mult else
+               "the contribution is multiplied by the mask: a non-finite gradient at a masked-out entry reaches the ufunc's operands as nan (0 * nan), "
+               "where the functional program where(mask, f(x), old) passes nothing")
+    run.count("routing statements (assignment/selection)", nsel)
+
+
+def r05_10(run):
+    """index classifiers decide from np.asarray(ind) alone.  NumPy performs advanced indexing for every object that converts to an integer (boolean)
+    array -- ndarrays, sequences, Tensors and any other __array__ provider; a classifier that additionally requires the element to be an
+    instance of a closed list of Python types misses the others, and repeated positions then get no last-write resolution."""
+    n = 0
+    for q in ("mygrad._tensor_core_ops.indexing._is_int_array_index", "mygrad._tensor_core_ops.indexing._is_bool_array_index"):
+        fi = anchor_func(run, q)
+        tests = [c for c in own_nodes(fi.node) if isinstance(c, ast.Call) and isinstance(c.func, ast.Name) and c.func.id in ("isinstance", "hasattr")]
+        tests += [c for c in own_nodes(fi.node) if isinstance(c, ast.Compare) and any(
+            isinstance(x, ast.Call) and isinstance(x.func, ast.Name) and x.func.id == "type" for x in [c.left] + list(c.comparators))]
+        n += 1
+        neg = set()
+        for u in own_nodes(fi.node):
+            if isinstance(u, ast.UnaryOp) and isinstance(u.op, ast.Not):
+                neg |= {id(x) for x in ast.walk(u.operand)}
+        harmless = {"slice", "type(None)", "type(Ellipsis)", "type(...)", "NoneType", "EllipsisType", "int", "float", "bool", "Number", "Integral", "Real", "str"}
+        bad = None
+        for t in tests:
+            if isinstance(t, ast.Call) and t.func.id == "isinstance" and id(t) in neg and len(t.args) == 2:
+                tys = t.args[1].elts if isinstance(t.args[1], ast.Tuple) else [t.args[1]]
+                if all(norm(x).split(".")[-1] in harmless or norm(x) in harmless for x in tys):
+                    continue  # excluding things that can never be an array index narrows nothing
+            bad = t
+            break
+        run.ob("R05.10", loc(fi, bad if bad is not None else fi.node), fi.short, "index classification depends on np.asarray(ind) only", bad is None,
+               "dtype kind / ndim / length of the converted element; no test of the element's Python type" if bad is None else
+               f"`{norm(bad)[:60]}` restricts the classifier to a closed list of Python types: an index given as any other array-like (a Tensor, "
+               f"an object with __array__) is classified as basic, so SetItem.backward_var skips the last-write resolution for repeated positions")
+    run.count("index classifiers", n)
+
+
 def check(run):
     run.rule("R05.1", "the tracked in-place kernel writes into a private copy of the base (def-use chain to graph.base.tensor.copy()), made after "
              "the graph duplication; operands are placeholders", floor=4)
@@ -385,3 +542,8 @@ def check(run):
     r05_7(run)
     run.rule("R05.8", "UnView replays the view functions on a buffer laid out like the base", floor=1)
     r05_8(run)
+    run.rule("R05.9", "routing ops (SetItem, UnView, ApplyMask) and the ufunc where-mask drop excluded entries by assignment/selection, never by "
+             "scaling with a 0/1 mask (0 * nan = nan leaks a non-finite gradient into overwritten / masked-out contents)", floor=4)
+    r05_9(run)
+    run.rule("R05.10", "index classifiers decide from the converted element (dtype kind, ndim), not from its Python type", floor=2)
+    r05_10(run)
